@@ -23,6 +23,8 @@
 //    clone leaves nothing behind (cloned values released once, nodes: leak oracle), the sources are untouched; a failed
 //    mpt_parse_node / mpt_node_parse leaves the target as it was, a failed mpt_node_append run leaves the elements appended
 //    before the failure (complete, a prefix of the text); all invariants hold; no sanitizer report.
+//    C++ value assignment node = reference<metatype> (header only) with another node's, an empty and the node's own
+//    reference; counting values count their handles (shareable ones hand out more through addref).
 //    A share of the nodes is named by binary identifier data (charset 0, 3 bytes inline or 21/24/85/300 bytes), derived
 //    from the name draws; clones are compared with mpt_identifier_inequal and byte by byte.
 //    Preconditions taken from the callers in /repo: the inserted node is detached (no parent/next/prev), the target is
